@@ -445,6 +445,13 @@ fn main() {
     register_runners(vec![
         cvh_i0::run, cvh_i1::run, cvh_i2::run, cvh_i3::run, cvh_i4::run, cvh_i5::run, cvh_i6::run, cvh_i7::run, cvh_i8::run, cvh_i9::run, cvh_i10::run,
     ]);
+    {
+        let mut v: Vec<StaticCase> = vec![];
+        for t in [cvh_static_0::CASES, cvh_static_1::CASES, cvh_static_2::CASES, cvh_static_3::CASES, cvh_static_4::CASES, cvh_static_5::CASES] {
+            v.extend(t.iter().copied());
+        }
+        register_static(v);
+    }
     let args: Vec<String> = std::env::args().skip(1).collect();
     let code = match args.first().map(|s| s.as_str()) {
         Some("worker") => worker(&args[1..]),
